@@ -25,6 +25,9 @@ func (o *Obligation) smtVariant(relaxed bool) string {
 	b.WriteString("(set-option :produce-models true)\n(set-logic ALL)\n")
 	b.WriteString(prelude)
 	if o.tx != nil {
+		// obligations of one function are discharged concurrently and share the function's declaration table and caches
+		o.tx.smtMu.Lock()
+		defer o.tx.smtMu.Unlock()
 		dt := o.tx.d.text(-1)
 		if o.Cover || relaxed {
 			// reachability covers are decided modulo the quantified axioms/frames (dropping assumptions can only
